@@ -32,7 +32,7 @@ _SYM = (SInt, SStr, SBytes, SBlob, SRope, SChoice, SEnum, SBool)
 class SymStruct:
     error = _struct.error
     calcsize = staticmethod(_struct.calcsize)
-    SIZES = {"B": 1, "b": 1, "H": 2, "h": 2}
+    SIZES = {"B": 1, "b": 1, "H": 2, "h": 2, "I": 4, "i": 4, "L": 4, "l": 4}
 
     @staticmethod
     def _split(fmt):
@@ -549,7 +549,11 @@ class SymInFile:
 
     def read(self, n=-1):
         if isinstance(n, SInt):
-            n = core.concretize(n, limit=70000)
+            rest = s_len(self.data) - self.pos
+            if isinstance(rest, int) and bool(n >= rest):
+                n = rest          # every count >= what is left reads the same bytes: one path for all of them
+            else:
+                n = core.concretize(n, limit=70000)
         if n is None or n < 0:
             r = self.data[self.pos:]
         else:
@@ -617,7 +621,25 @@ def s_open(path, mode="r", *a, **k):
     return builtins.open(path, mode, *a, **k)
 
 
+def s_int_from_bytes(data, byteorder="big", *, signed=False):
+    if not isinstance(data, SBytes):
+        return int.from_bytes(data, byteorder, signed=signed)
+    bs = list(data.b)
+    if byteorder not in ("little", "big") or len(bs) > 7:
+        raise Unmodelled("int.from_bytes(%d bytes, %r)" % (len(bs), byteorder))
+    if byteorder == "big":
+        bs.reverse()
+    v = 0
+    for k, b in enumerate(bs):
+        v = v | (b << (8 * k)) if k else b
+    if signed and bs:
+        sign = 1 << (8 * len(bs) - 1)
+        v = (v ^ sign) - sign
+    return v
+
+
 HELPERS = {
+    "_sx_int_from_bytes": s_int_from_bytes,
     "_sx_open": s_open,
     "_sx_contains": s_contains,
     "_sx_b": s_b,
